@@ -704,6 +704,14 @@ impl<'tcx> Cx<'tcx> {
                                     let _ = write!(out, ",\"v\":\"{}\"", si.to_bits_unchecked());
                                 }
                             }
+                        } else if let ty::Adt(..) = t.kind() {
+                            // struct-valued constants (Duration, ...): the evaluated value, pretty-printed
+                            if let Ok(val) = tcx.const_eval_poly(did) {
+                                let txt = format!("{}", rustc_middle::mir::Const::Val(val, t));
+                                if txt.len() < 400 {
+                                    let _ = write!(out, ",\"txt\":{}", esc(&txt));
+                                }
+                            }
                         } else if let ty::Ref(_, inner, _) = t.kind() {
                             if inner.is_str() {
                                 if let Ok(val) = tcx.const_eval_poly(did) {
